@@ -61,16 +61,20 @@ def random_history(rng, kind, maxlen, nops):
         nops = min(nops, 40)
     keyset = [rng.uniform(-3, 3) for _ in range(nk)]
     key = lambda: rng.choice(keyset) if rng.random() < 0.8 else rng.uniform(-3, 3)    # noqa: E731
-    rec.new(0.0, float("-inf"), float("-inf"))
-    rec.new(1.0, key(), key())
+    # arbitrary end coordinates (the solver's are 0 and 1)
+    lo = rng.choice([0.0, 0.0, -2.5, 0.25, 1000.0])
+    hi = lo + rng.choice([1.0, 1.0, 3.0, 0.5])
+    rec.new(lo, float("-inf"), float("-inf"))
+    rec.new(hi, key(), key())
     rec.insertfirst(1, 2)
-    xs = {0.0, 1.0}
+    xs = {lo, hi}
     inlist = [1, 2]
     for _ in range(nops):
         u = rng.random()
         if u < 0.45:
             x = rng.random() if rng.random() < 0.7 else rng.choice([2.0 ** -k for k in range(1, 30)] + [1 - 2.0 ** -k for k in range(2, 30)])
-            if x in xs or not (0.0 < x < 1.0):
+            x = lo + x * (hi - lo)
+            if x in xs or not (lo < x < hi):
                 continue
             xs.add(x)
             i = rec.new(x, key(), key())
@@ -92,7 +96,8 @@ def random_history(rng, kind, maxlen, nops):
         elif u < 0.94:
             rec.refill()
         else:
-            rec.find(rng.choice([rng.random(), rng.choice(sorted(xs)[:-1]), 0.0]))
+            # inside, at a stored coordinate (also the first and the last), below the first and beyond the last item
+            rec.find(rng.choice([lo + rng.random() * (hi - lo), rng.choice(sorted(xs)), lo, hi, lo - rng.choice([0.5, 1e-9, 100.0]), hi + rng.choice([0.5, 1e-9])]))
     return rec
 
 
